@@ -1,6 +1,7 @@
 """C01 - event timestamps equal the exact tempo-map time of their tick."""
 from vf.runner import Ob
 from .common import *  # noqa: F401,F403
+from .common import _ned
 
 LEVEL = "model_checking"
 SY, TK, TM, IN, GL, TR = "chartparse.sync.", "chartparse.tick.", "chartparse.time.", "chartparse.instrument.", "chartparse.globalevents.", "chartparse.track."
@@ -37,8 +38,7 @@ def obligations(tier):
         obs.append(Ob(f"C01.constructor.{['TS','SP','TE','TXT','SEC','LYR'][kind]}", "CH", "harness.h_events", "constructor_dataflow", 120,
                       {"VF_KIND": kind}, funcs=(SY + "TimeSignatureEvent.from_parsed_data", IN + "SpecialEvent.from_parsed_data",
                                                 IN + "TrackEvent.from_parsed_data", GL + "GlobalEvent.from_parsed_data")))
-    obs.append(Ob("C01.note_event_dataflow", "CH", "harness.h_instrument", "note_event_dataflow", 300,
-                  funcs=(IN + "NoteEvent.from_parsed_data",), bounds="2 data per tick; start and sustain-end lookups"))
+    obs += _ned("C01.note_event_dataflow", tier, (IN + "NoteEvent.from_parsed_data",))
     obs.append(Ob("C01.builder_threading", "CH", "harness.h_events", "builder_threading", 120, funcs=(TR + "build_events_from_data",)))
     idxs = ["0,1", "0,6,1"] if tier == "quick" else ["0,1", "0,6,1", "7,2", "3,3,4", "0,1,2,5"]
     for ix in idxs:
